@@ -191,7 +191,7 @@ func (c ImportCase) NumImports() int {
 //	2 deviations under the default interleaving as one file.
 func EnumCases(tier string) (cases []ImportCase, rule string) {
 	thorough := tier == "thorough"
-	threeTouching, noiseCases := 0, 0
+	threeTouching, noiseCases, stretched := 0, 0, 0
 	if thorough {
 		// the long-running items first: captures large enough to make the importer use snapshots
 		for _, set := range ref.Sets() {
@@ -219,7 +219,21 @@ func EnumCases(tier string) (cases []ImportCase, rule string) {
 			case thorough || ili == 0:
 				maxDevs = 1
 			}
+			defaultSilence := time.Duration(0)
+			if cp, err := ref.Build(ref.Case{Set: set.Name, Interleave: il, Link: "eth"}); err == nil {
+				defaultSilence = cp.MaxSilence()
+			}
 			for _, devs := range ref.EnumDevLists(set, il, maxDevs) {
+				if len(devs) > 1 && defaultSilence < 5*time.Minute {
+					// deviations that delay a packet across an idle period (a fragment captured before, its sibling after
+					// the next idle period) can stretch a silence of four minutes beyond the importer's inactivity
+					// timeout of five: the endpoints' conversation is then, by the importer's own definition of a flow,
+					// two flows - such renderings say nothing about the property and are left out
+					if cp, err := ref.Build(ref.Case{Set: set.Name, Devs: devs, Interleave: il, Link: "eth"}); err == nil && cp.MaxSilence() >= 5*time.Minute {
+						stretched++
+						continue
+					}
+				}
 				n := ref.NumPackets(set, devs, il)
 				links := []string{"eth"}
 				if len(devs) == 0 {
@@ -315,6 +329,9 @@ func EnumCases(tier string) (cases []ImportCase, rule string) {
 	}
 	rule += fmt.Sprintf("Both tiers: default renderings cut into three files whose first two touch (equal timestamps across the first cut), imported one by one (%d cases; quick: second cut at most 3 packets after the first, or before the last packet). ", threeTouching)
 	rule += fmt.Sprintf("Default renderings with a frame that carries no stream (ARP, LLDP, ICMP echo, IPv4 frames that end inside their TCP / UDP header) in front of the first packet and in the middle, as one file and cut in front of the frame (%d cases). ", noiseCases)
+	if stretched != 0 {
+		rule += fmt.Sprintf("%d renderings with two deviations are left out because the deviations stretch an idle period of a conversation beyond the importer's inactivity timeout. ", stretched)
+	}
 	rule += "non-trivial = at least one deviation or at least two files"
 	return
 }
